@@ -66,6 +66,7 @@ int main(int argc, char **argv) {
                     "neg\nLDAC 33\nLDBM 1\nSTAI 2\nLDAC 0\nSTAI 3\nLDAC 1\nOPR SVC\nLDAC 7\nLDBM 1\nSTAI 2\nLDAC 0\nOPR SVC\n";
     items.push_back({"far:table" + std::to_string(T), a, true, {""}});
   }
+  items.insert(items.begin(), Item{"regs-from-reset", "BR start\nDATA 1000\nstart\nBRZ za\nBR bad\nza\nOPR ADD\nBRZ zb\nBR bad\nzb\nOPR SUB\nBRN bad\nBRZ good\nbad\nLDAC 9\nLDBM 1\nSTAI 2\nLDAC 0\nOPR SVC\ngood\nLDAC 4\nLDBM 1\nSTAI 2\nLDAC 0\nOPR SVC\n", true, {""}});
   size_t shipped = items.size();
   uint64_t want = th ? 120000 : 6000;
   for (uint64_t i = 0; i < C.total; i += std::max<uint64_t>(1, C.total / want)) { std::string sh, fam; std::string s = C.make(i, &sh, &fam); items.push_back({fam, s, false, {}}); }
